@@ -124,6 +124,23 @@ def run_bounded(chk):
                                "bounded-fail", "exact-oracle", detail=str(bad[:3]), model={},
                                replay=lambda m, P3=P3, bad=bad, name=name: (True, {"constructor": "Polygon", "case": name, "vertices": P3, "mismatches": bad[:6]}),
                                kind="bounded")
+    # the same object: all measures read, then resized / moved through the public setters, then read again
+    from . import stale
+    cox = real_coxeter()
+    hfails = []
+
+    def measures(s):
+        return {"signed_area": s.signed_area, "area": s.area, "perimeter": s.perimeter, "centroid": np.asarray(s.centroid, float),
+                "planar_moments_inertia": np.asarray(s.planar_moments_inertia, float), "polar_moment_inertia": s.polar_moment_inertia,
+                "inertia_tensor": np.asarray(s.inertia_tensor, float)}
+    polys = corpus.polygons_2d()
+    for nm, klass in (("L", "Polygon"), ("arrow", "Polygon"), ("pentagon_irregular", "ConvexPolygon")):
+        P = [[float(x) + 2.0, float(y) - 3.0, 0.0] for x, y in polys[nm]]
+        n_eval += stale.read_mutate_read(getattr(cox.shapes, klass)(P), measures, f"history:{klass}:{nm}", hfails)
+    for nm, info in hfails[:3]:
+        n_bad += 1
+        chk.record(f"bounded:polygon_measures[{nm}]", fkey, "bounded-fail", "fresh-construction", detail=str(info)[:400], model={},
+                   replay=lambda m, info=info, nm=nm: (True, {"case": nm, **info}), kind="bounded")
     if not n_bad:
         chk.record("bounded:polygon_measures", fkey, "bounded-pass", "exact-oracle", kind="bounded",
                    detail=f"{n_eval} polygons")
@@ -132,7 +149,7 @@ def run_bounded(chk):
                   "== exact rational in-plane oracle; reading inertia_tensor leaves handed-out vertices unchanged",
         "bound": "11 fixed simple polygons (convex, L, arrow, comb, irregular, regular 5/7/12) + seeded star polygons "
                  "(5..34 vertices), both orientations, 4 placements (identity, offset ~10 sizes, 2 exact rational rotations), "
-                 "explicit and default normal",
+                 "explicit and default normal; 3 objects read, moved / resized through their public setters and re-read against a fresh construction",
         "evaluations": n_eval, "distinct_nontrivial": len(cs),
         "rule": "distinct = (polygon, orientation, placement); all have >= 3 non-collinear vertices",
         "samples": [{"case": c[0], "n_vertices": len(c[1])} for c in cs[:3]], "failures": n_bad, "exhaustive": False})
